@@ -3,7 +3,7 @@ CONSTANTS
   MaxTasks = 100000
   MaxEpoch = 100000
   MaxOps = 100000
-  Dev = {"late-closes-new"}
+  Dev = {}
 INIT TInit
 NEXT TNext
 POSTCONDITION Accepted
